@@ -7,6 +7,16 @@
   Values are compared at representation level (`SVal`): integers as integers, IEEE floats as bit
   patterns, fixed-point as `.fixed raw frac` (= raw / 2^frac), char data as the bytes of the text;
   the conversion to Python objects is the harness' value glue (DESIGN.md section 5/C04).
+
+  What is NOT proved here and is checked by the correspondence run only: that the Python value the client
+  returns for a fixed-point sample is the quotient raw / 2^frac — i.e. that the code DIVIDES by the scale
+  (`x / decode.scale`, not `//`, not `round`).  In the model `.fixed raw frac` *means* raw / 2^frac; the value
+  glue (`streamglue.canon_value`) accepts the real decoder's float only if it equals
+  `float(Fraction(raw, 2**frac))` with raw re-read from the wire bytes by the harness' own type table.
+
+  The type table itself is pinned: `table_is_standard` says that the table regenerated from
+  `iparse.dsfmt_get` is the hand-written table of the 18 standard types of `Spec/StreamWire.lean` (ids,
+  signedness, width, kind, fraction bits), which is the one the specification `wireSample` reads.
 -/
 import NxsModel.Stream
 import NxsModel.Spec.StreamWire
@@ -15,6 +25,12 @@ import NxsModel.Lemmas.Stream
 import NxsModel.Lemmas.Serial
 namespace Nxs.C04
 open Nxs Nxs.Stream Nxs.Spec Nxs.Spec.StreamWire Nxs.Gen.Ids
+
+/-- the type table the code uses (regenerated from `iparse.dsfmt_get` on every run) is the hand-written table
+    of NONE + the 18 standard NxScope types: a changed signedness, width, fraction, kind or id of any row
+    (e.g. INT32 `"i"` → `"I"`) makes this false -/
+theorem table_is_standard : Gen.Types.table = Spec.StreamWire.standardTable :=
+  Stream.table_is_standard
 
 /-- every payload that is well-formed for the layout — any number of samples, any channel order,
     every type / dimension / metadata length / channel id — decodes to its flags byte and exactly
@@ -49,7 +65,7 @@ theorem chars_total (layout : List Chan) (user : List UserType) (chan ty vdim ml
       wireSample layout user ⟨chan, dtCHAR, vdim, mlen, [.text bs], m⟩ =
         some (byteOf chan :: (bs ++ mb)) := by
   intro bs hbs
-  have hd : dsfmtGet ty user = .ok ⟨1, [(1, .s)], false, 0, dtCHAR, false⟩ := by
+  have hd : typeGet ty user = .ok ⟨1, [(1, .s)], false, 0, dtCHAR, false⟩ := by
     rcases hty with rfl | rfl <;> rfl
   unfold wireSample
   simp only [hch, hd]
@@ -75,6 +91,25 @@ theorem chars_total_decode (layout : List Chan) (user : List UserType) (chan ty 
   apply decode_wire
   apply wireOf_append ha
   exact wireOf_cons_of (chars_total layout user chan ty vdim mlen m mb hty hch hc hv hm bs hbs) hp
+
+/-- the text conversion itself: for a CHAR type, `_stream_data_get` turns *any* byte string into text and never
+    fails.  This holds because the code decodes with `errors="replace"` (`Gen.Types.decCharReplace`, read from
+    the source on every run) … -/
+theorem chars_never_fail (d : Dsfmt) (hd : d.dtype = dtCHAR) (bs : Bytes) :
+    Stream.streamDataGet d [.bytes bs] = .ok [.text bs] := by
+  unfold Stream.streamDataGet Stream.streamDataGetP
+  rw [if_neg (fun h => by rw [hd] at h; exact absurd h.1 (by decide)), if_pos ⟨hd, rfl⟩]
+  simp [Stream.charReplace]
+
+example : (⟨1, [(1, .s)], false, 0, dtCHAR, false⟩ : Dsfmt).dtype = dtCHAR := rfl
+
+/-- … and only because of that: the strict decoder (`bytes.decode()`, the code before F4) raises
+    UnicodeDecodeError on the single byte ff — had the translator read `decCharReplace = false`,
+    `chars_never_fail`, `chars_total_decode` and `decode_wire` would not check -/
+theorem strict_decoder_fails :
+    Stream.streamDataGetP false ⟨1, [(1, .s)], false, 0, dtCHAR, false⟩ [.bytes [0xff]] = .error .unicodeError ∧
+    Stream.streamDataGetP true ⟨1, [(1, .s)], false, 0, dtCHAR, false⟩ [.bytes [0xff]] = .ok [.text [0xff]] := by
+  decide
 
 /-! ### fixed-point -/
 
@@ -123,7 +158,7 @@ theorem fixed_value : ∀ row ∈ fixedRows,
           [⟨chan, dtNUM, rs.length, mlen, rs.map (SVal.fixed · row.2.2.2), m⟩])) := by
   intro row hrow layout user flags chan mlen rs rb m mb hch hc hv hrb hm
   have key : ∀ (ty : Nat) (cd : Code) (signed : Bool) (size frac : Nat),
-      dsfmtGet ty user = .ok ⟨size, [(1, cd)], true, frac, dtNUM, false⟩ →
+      typeGet ty user = .ok ⟨size, [(1, cd)], true, frac, dtNUM, false⟩ →
       cd ≠ .s → isIntCode cd = true → frac ≠ 0 → cd.size = size →
       (∀ r fr, encAtom ⟨cd, size⟩ (.fixed r fr) = encInt signed size r) →
       layout[chan]? = some ⟨ty, rs.length, mlen⟩ → encInts signed size rs = some rb →
@@ -212,7 +247,7 @@ theorem meta_rule (layout : List Chan) (user : List UserType) (flags : Byte) (ch
     (hch : layout[chan]? = some ⟨tyNONE, 0, mb.length⟩) (hc : chan ≤ 255) :
     Stream.streamDecode layout user (flags :: byteOf chan :: mb) =
       .ok (some (flags.toNat, [⟨chan, dtNONE, 0, mb.length, [], metaVals mb⟩])) := by
-  have hd : dsfmtGet tyNONE user = .ok ⟨0, [], false, 0, dtNONE, false⟩ := rfl
+  have hd : typeGet tyNONE user = .ok ⟨0, [], false, 0, dtNONE, false⟩ := rfl
   have hw : wireSample layout user ⟨chan, dtNONE, 0, mb.length, [], metaVals mb⟩ =
       some (byteOf chan :: mb) := by
     unfold wireSample
